@@ -120,6 +120,31 @@ def check_resolution(case, ctx):
     # one long-lived Option object evaluated on further dictionaries: each outcome depends on that dictionary alone
     same = build(spec).root
     run(same.evaluate, o)
+    if r.ok:
+        # a consumer that works in place on what the option gave it must not change what the option gives next time
+        try:
+            given = same.evaluate(copy.deepcopy(o))
+        except Exception:
+            given = None
+
+        def scribble(a, depth=0):
+            if isinstance(a, list):
+                for x_ in a:
+                    if depth < 2:
+                        scribble(x_, depth + 1)
+                a.append("scribbled")
+            elif isinstance(a, dict):
+                for x_ in list(a.values()):
+                    if depth < 2:
+                        scribble(x_, depth + 1)
+                a["scribbled"] = 1
+        if isinstance(given, (list, dict)):
+            scribble(given)
+            again = run(same.evaluate, copy.deepcopy(o))
+            if not again.ok or again.value != r.value:
+                raise Violation("value-shared-with-consumer", f"Option {node} on {o}: after a consumer edited the value it was given in place the option gives "
+                                                              f"{again!r}, expected {r.value}")
+            labels.add("consumer-edits-value-in-place")
     for o_more in case.get("more", []):
         if "scalar-section-walk" in Ref(spec).run(o_more).labels or any(is_scalar_section(o_more, k) for k in mentioned) \
                 or uses_scalar_section(spec["root"], o_more):
